@@ -359,9 +359,13 @@ func runC09(c *Ctx) {
 		// the double join ingress -> services -> pods
 		seed := c.Seed*100 + int64(runs)
 		var problems []string
+		slowPods := rep%2 == 1
 		dl := sched.Bubble(c.T, func() {
 			ingSrv, svcSrv, podSrv := fakeapi.New(), fakeapi.New(), fakeapi.New()
 			ingSrv.Kind, svcSrv.Kind, podSrv.Kind = KIngress, KService, KPod
+			if slowPods {
+				podSrv.ListLatency = func(int) time.Duration { return 5 * time.Second }
+			}
 			ingSrv.Put(proto(KIngress, 1, 1, 0))
 			for i := 0; i < 3; i++ {
 				svcSrv.Put(proto(KService, 1, 1+i, 1+i))
@@ -383,6 +387,37 @@ func runC09(c *Ctx) {
 				sched.Settle()
 			}()
 			pert.Barrier()
+			if slowPods {
+				// the result is closed BEFORE it ever became ready (the pod
+				// controller's first list is still in flight): everything the join
+				// created stops all the same.  The base controllers are not quiet
+				// yet, so two such create/close rounds are compared with each other.
+				var counts []int
+				for round := 0; round < 3; round++ {
+					jc, err := join.IngressPods(ctx, ing.raw.(tingress.Controller), svc.raw.(tservice.Controller), pod.raw.(tpod.Controller))
+					if err != nil {
+						problems = append(problems, "IngressPods failed: "+err.Error())
+						return
+					}
+					pert.Barrier()
+					if isClosed(jc.Ready()) {
+						problems = append(problems, "IngressPods is ready although the pod controller is not")
+					}
+					jc.Close()
+					pert.Barrier()
+					time.Sleep(time.Millisecond)
+					sched.Settle()
+					if !isClosed(jc.Done()) {
+						problems = append(problems, "an IngressPods result closed before it was ready is not done")
+					}
+					counts = append(counts, sched.LibraryGoroutines())
+				}
+				if counts[2] > counts[1] || counts[1] > counts[0] {
+					problems = append(problems, fmt.Sprintf("library goroutines after three create/close rounds of an IngressPods result that never became ready: %v (something the join created keeps running)", counts))
+				}
+				time.Sleep(6 * time.Second)
+				pert.Barrier()
+			}
 			base := sched.LibraryGoroutines()
 			for cycle := 0; cycle < 3; cycle++ {
 				jctx, jcancel := context.WithCancel(ctx)
@@ -448,6 +483,6 @@ func runC09(c *Ctx) {
 		}
 		c.DistinctCase(fmt.Sprint("IngressPods", seed))
 	}
-	c.Rep.Rule = "all eight generated joins and the double join IngressPods over fake API servers for source and destination (typed base controllers, virtual time, perturbation): source histories (sources appear, change selector, disappear) and destination histories (labels and namespaces change) at arbitrary relative timing; three create/use/close cycles of the join over long-lived base controllers (in the second cycle the context given to the constructor is cancelled right after construction: it only carries the logger). At barriers: join cache = destination objects selected by a current source object (ownership predicate written directly; also vs the extracted constructor + accept), ready only after source and destination (slow source list variant; slow destination list variant with the source changing before the destination is ready) and ready also when no source object exists at creation, Close stops everything the join created (goroutine inventory back to baseline each cycle) and leaves the bases running and current. Non-trivial = every (join, scenario)."
+	c.Rep.Rule = "all eight generated joins and the double join IngressPods over fake API servers for source and destination (typed base controllers, virtual time, perturbation): source histories (sources appear, change selector, disappear) and destination histories (labels and namespaces change) at arbitrary relative timing; three create/use/close cycles of the join over long-lived base controllers (in the second cycle the context given to the constructor is cancelled right after construction: it only carries the logger). At barriers: join cache = destination objects selected by a current source object (ownership predicate written directly; also vs the extracted constructor + accept), ready only after source and destination (slow source list variant; slow destination list variant with the source changing before the destination is ready) and ready also when no source object exists at creation, Close stops everything the join created (goroutine inventory back to baseline each cycle; also when an IngressPods result is closed before it ever became ready) and leaves the bases running and current. Non-trivial = every (join, scenario)."
 	c.Rep.Stats["runs"] = runs
 }
